@@ -321,7 +321,7 @@ func (g *Gen) Msg(d MD, depth int) *Msg {
 				v = Val{}
 			}
 			if isMsg && r.Intn(6) == 0 {
-				v = Val{M: &Msg{D: fd.Message()}}
+				v = Val{M: g.minimalMsg(fd.Message())}
 			}
 			g.cell(fd)
 			m.F = append(m.F, &FVal{FD: fd, S: &v})
@@ -355,7 +355,7 @@ func (g *Gen) Msg(d MD, depth int) *Msg {
 				v := g.val(vfd, depth)
 				if r.Intn(5) == 0 {
 					if vfd.Kind() == protoreflect.MessageKind {
-						v = Val{M: &Msg{D: vfd.Message()}}
+						v = Val{M: g.minimalMsg(vfd.Message())}
 					} else {
 						v = Val{}
 					}
@@ -374,7 +374,7 @@ func (g *Gen) Msg(d MD, depth int) *Msg {
 				v := g.val(fd, depth)
 				if r.Intn(6) == 0 {
 					if isMsg {
-						v = Val{M: &Msg{D: fd.Message()}}
+						v = Val{M: g.minimalMsg(fd.Message())}
 					} else {
 						v = Val{}
 					}
@@ -384,7 +384,7 @@ func (g *Gen) Msg(d MD, depth int) *Msg {
 		default:
 			v := g.val(fd, depth)
 			if isMsg && r.Intn(6) == 0 {
-				v = Val{M: &Msg{D: fd.Message()}}
+				v = Val{M: g.minimalMsg(fd.Message())}
 			}
 			f.S = &v
 			if !populated(fd, f.S) {
@@ -399,6 +399,27 @@ func (g *Gen) Msg(d MD, depth int) *Msg {
 			m.Unk = append(m.Unk, g.UnknownRecord(d, 0)...)
 		}
 		g.Cells["unknown"]++
+	}
+	return m
+}
+
+// minimalMsg is the empty message of d, except that required fields (embedded
+// proto2 messages) are populated so that generated values are always initialised.
+func (g *Gen) minimalMsg(d MD) *Msg {
+	m := &Msg{D: d}
+	fs := d.Fields()
+	for i := 0; i < fs.Len(); i++ {
+		fd := fs.Get(i)
+		if fd.Cardinality() != protoreflect.Required {
+			continue
+		}
+		var v Val
+		if fd.Kind() == protoreflect.MessageKind {
+			v = Val{M: g.minimalMsg(fd.Message())}
+		} else {
+			v = g.Scalar(fd)
+		}
+		m.F = append(m.F, &FVal{FD: fd, S: &v})
 	}
 	return m
 }
